@@ -213,7 +213,7 @@ func Verify(mod *Module, funcName string, opts Options) (*Result, error) {
 	res.ctx.Logic = "QF_AUFBV"
 	t0 := time.Now()
 	e := &executor{mod: mod, ctx: res.ctx, opts: opts, res: res, fn: f, globalReg: map[string]*Region{}, mergeMemo: map[mergeKey]*Val{},
-		siteOrd: map[*Instr]int{}, ids: map[string]int{}, mapVerMax: map[string]int{}, probes: res.probes, notes: map[string]bool{}}
+		siteOrd: map[*Instr]int{}, ids: map[string]int{}, offCases: map[string][]offCase{}, mapVerMax: map[string]int{}, probes: res.probes, notes: map[string]bool{}}
 	e.tm = &terms{ctx: res.ctx, addInfo: map[string]addRec{}, defs: map[string]*defRec{}, boolDefs: map[string]string{}, axIDs: map[string]bool{}}
 	res.tm = e.tm
 	err := e.verifyEntry(f, pt, spec)
@@ -294,7 +294,9 @@ func (e *executor) verifyEntry(f *Function, pt string, spec *ProgSpec) error {
 			pkt.init.Ov[off] = Byte{V: constVal(bv, 8)}
 			e.tm.axiom(fmt.Sprintf("pin:%d", off), smt.Eq(smt.Select(pkt.init.Base, lit(uint64(off), 64)), lit(bv, 8)), pkt.init.Base.S)
 		}
-		e.mute = 1 // the program's own obligations belong to the unpinned run
+		if !debugNoMute {
+			e.mute = 1 // the program's own obligations belong to the unpinned run
+		}
 	}
 	e.pktLen0 = e.tm.declConst("pkt_len0", smt.BV(64))
 	e.tm.axiom("pkt_len0", e.tm.icmp("ule", e.pktLen0, lit(65535, 64)), "pkt_len0")
@@ -473,7 +475,7 @@ func (e *executor) exitSpec(fr *frame, out *State, ret smt.Term, ref FunctionalR
 			outArr = e.flush(mem).Base
 		}
 		extra := map[string]vsVal{"ret": {retT, 32}, "outlen": {ls.pktLen, 64}}
-		fs, err := e.loadFuncSpec(ref.File, extra, &hookCtx{outArr: outArr})
+		fs, err := e.loadFuncSpec(ref.File, extra, &hookCtx{outArr: outArr, outMem: mem})
 		if err != nil {
 			return err
 		}
@@ -765,6 +767,7 @@ func Solve(obligs []*Obligation, solver *smt.Solver, workers int) []Solved {
 	type job struct {
 		idx  []int
 		weak string
+		long bool // functional-spec obligation: the weak query gets the full budget, no grouping
 	}
 	jobs := make(chan job, workers)
 	var wg sync.WaitGroup
@@ -810,7 +813,16 @@ func Solve(obligs []*Obligation, solver *smt.Solver, workers int) []Solved {
 					}
 					continue
 				}
-				r := checkWeak(j.weak)
+				var r smt.Result
+				if j.long {
+					if solver.Confirm {
+						r = solver.Check(j.weak)
+					} else {
+						r = solver.CheckQuick(j.weak, solver.Timeout)
+					}
+				} else {
+					r = checkWeak(j.weak)
+				}
 				if r.Status == "unsat" {
 					for _, i := range j.idx {
 						s := &out[i]
@@ -855,7 +867,7 @@ func Solve(obligs []*Obligation, solver *smt.Solver, workers int) []Solved {
 		if len(w) > MaxQueryBytes {
 			w = ""
 		}
-		jobs <- job{append([]int(nil), grp...), w}
+		jobs <- job{append([]int(nil), grp...), w, false}
 		grp = grp[:0]
 	}
 	for i, o := range obligs {
@@ -864,10 +876,19 @@ func Solve(obligs []*Obligation, solver *smt.Solver, workers int) []Solved {
 			out[i].Status, out[i].Solver = "unsat", "syntactic"
 			continue
 		}
-		weakable := !NoWeakQueries && (o.Kind == "inbounds" || o.Kind == "divzero" || o.Kind == "helperarg")
+		weakable := !NoWeakQueries && (o.Kind == "inbounds" || o.Kind == "divzero" || o.Kind == "helperarg" || o.callReplay != nil || len(o.probes) > 0)
 		if !weakable {
 			flush()
-			jobs <- job{[]int{i}, ""}
+			jobs <- job{[]int{i}, "", false}
+			continue
+		}
+		if o.callReplay != nil || len(o.probes) > 0 {
+			flush()
+			w := weakGroup([]*Obligation{o})
+			if len(w) > MaxQueryBytes {
+				w = ""
+			}
+			jobs <- job{[]int{i}, w, true}
 			continue
 		}
 		if len(grp) >= WeakGroupSize {
@@ -920,3 +941,5 @@ type callArg struct {
 	w    int
 	size int // pointer arguments: bytes of the object that are replayed (0 = not replayable)
 }
+
+var debugNoMute = false
